@@ -285,6 +285,19 @@ impl Prop for C10 {
     }
 
     fn check(c: &Case, obs: &mut Obs) {
+        // history round (core::history_round): the same inputs with `graphemes` flipped in between
+        if history_round(
+            c,
+            obs,
+            |c| {
+                let mut v = c.clone();
+                v.graphemes = !v.graphemes;
+                v
+            },
+            Self::check,
+        ) {
+            return;
+        }
         let g = c.graphemes;
         obs.add("generator-repaired", c.repaired as u64);
         obs.tag(if g { "mode-graphemes" } else { "mode-code-points" });
